@@ -96,6 +96,10 @@ func main() {
 	}
 	ev = verifev.New(as, "seqx")
 	c16mode = as == "C16"
+	if as == "C12" {
+		c16mode = true
+		c16kinds = map[string]bool{"authenticate-upgradeable": true, "op-should-fail": true, "op-should-succeed": true}
+	}
 	if ev.Thorough() {
 		pws = []string{"", "x", "xy", "X", "x\x00"}
 		sets = []uint{1, 2, 3}
